@@ -95,6 +95,12 @@ def ba_plan(c):
     for mut in ('resize obj=2 n=2', 'resize obj=2 n=8', 'resize obj=2 n=0', 'push obj=2 value=9', 'pop obj=2', 'index_set obj=2 pos=1 value=9', 'data_set obj=2 pos=1 value=9', 'clear obj=2', 'reserve obj=2 n=64', 'index_get obj=2 pos=0 const=0', 'iter obj=2 const=0'):
         p.case(['ba.new obj=1 how=sized n=5 value=170', 'ba.new obj=2 how=copy src=1', 'ba.' + mut, 'ba.resize obj=2 n=7', 'ba.cmp obj=1 other=2',
                 'ba.new obj=3 how=default', 'ba.assign obj=3 src=1', 'ba.' + mut.replace('obj=2', 'obj=3'), 'ba.resize obj=3 n=6'], cost=0.5)
+    # shared buffer with spare room: size at / next to a multiple of the allocation unit, capacity above it
+    for n in (0, 1, 15, 16, 17, 32, 48):
+        for extra in (0, 1, 5):
+            p.case(['ba.new obj=1 how=sized n=%d value=7' % n, 'ba.reserve obj=1 n=%d' % (n + extra), 'ba.new obj=2 how=copy src=1', 'ba.push obj=2 value=1', 'ba.push obj=1 value=2',
+                    'ba.push obj=2 value=3', 'ba.new obj=3 how=copy src=2', 'ba.pop obj=3', 'ba.push obj=3 value=4', 'ba.push obj=2 value=5', 'ba.cmp obj=2 other=3'], cost=0.5)
+            c.distinct([('sharedroom', n, extra)])
     # shrink then grow within capacity: new elements are zero
     p.case(['ba.new obj=1 how=sized n=8 value=170', 'ba.resize obj=1 n=3', 'ba.resize obj=1 n=8', 'ba.new obj=2 how=sized n=16 value=1', 'ba.resize obj=2 n=0', 'ba.resize obj=2 n=16',
             'ba.pop obj=2', 'ba.push obj=2 value=4', 'ba.resize obj=2 n=17'], cost=0.5)
